@@ -24,7 +24,21 @@
     `unmodelled:DrawsLength`     — a `Draws` field whose length is not the size the code requests;
     `unmodelled:MissingValues`   — missing values with `impute_missing_values = False` (NaN would propagate).
   Not modelled at all: `ecdf_method = "kernel_density"` (histogram bins are an oracle of `Model.Stats.ecdfHist1`,
-  not wired in here), NaN/inf data when `impute_missing_values = False`, the `np.nan in fit` test of step 6.
+  not wired in here), NaN/inf data when `impute_missing_values = False`, the `np.nan in fit` test of step 6,
+  in-place mutation of the caller's arrays (steps 2 and 4 write into their arguments).
+
+  Sort stability: `argsort` / `rankOf` of `Model.Stats` are the *stable* sort; numpy's default is not, so wherever equal
+  values are ranked (step 4 re-insertion, step 6 which of several tied values goes to a bound, step 2 ranks of equal
+  valid values) the real code's choice among the tied positions is arbitrary — statements about single positions of a
+  tied group need a tie-free hypothesis; the correspondence compares tied groups as multisets.
+  `ecdf(method = "linear_interpolation")` at a *duplicated* sample value: the model has numpy's exact semantics
+  (right-most knot); the float code returns either side of the jump depending on the rounding of `np.quantile`'s knots
+  (observed; flagged `ecdftie` by the correspondence).
+
+  Contents: `ExtRat`, `Cfg`, `IsiFamily` (`ofLocScale`, `ratSigmoid`), `Oracles`, `Draws`; masks;
+  `step3RemoveTrend`/`step3`/`step7`; `step4`; `step5TransferTrend`/`step5`; `adjustBetween`/`step6Full`/`step6`;
+  `applyOnWindow` (steps 3–7), `winFn` (the `Skeleton.WinFn` shape); `step2Impute`/`step2`/`applyOnWindowImpute`;
+  `annualCycle`/`step1`/`step8`; `applyLocationRW`/`applyLocationMonths` (step 1 + `Model/Skeleton` loop + step 8).
 -/
 import IbicusModel.Model.Py
 import IbicusModel.Model.Stats
